@@ -296,17 +296,22 @@ def C07(tier, seed):
 
 
 def C08(tier, seed):
-    a = {"all_rp": True, "scale": "sym"}
+    a = {"all_rp": True, "scale": "iso"}  # (perimeter: isotropic spacing only, see segstep)
     b = {"scale": "aniso"}  # (skimage perimeter supports isotropic spacing only: core features here)
     W3 = (2, 1, 3)  # three cells per frame: a mask can start away from the border
     if tier == "quick":
-        specs = [("paint", 2, W3, b), ("UserAddNode", 2, G2, {"scale": "sym"}), ("UserDeleteNode", 2, G2, a)]
-        en = [(k, 2, G2, {"scale": "sym"}) for k in ("ellipse_axis_radii", "circularity", "perimeter")]
+        specs = [("paint", 2, W3, b), ("UserAddNode", 2, G2, {"scale": "sym"}), ("UserDeleteNode", 2, G2, a),
+                 # a feature enabled BETWEEN an edit and its undo
+                 ("paint", 2, G2, {"scale": "iso", "enable_mid": "ellipse_axis_radii"})]
+        en = [(k, 2, G2, {"scale": "iso"}) for k in ("ellipse_axis_radii", "circularity", "perimeter")]
     else:
         specs = [("paint", 3, G2, a), ("paint", 2, G3, {"scale": "none", "all_rp": True}), ("paint", 2, G3D, a),
                  ("paint", 2, W3, b), ("paint", 2, (2, 1, 4), {"scale": "aniso"}),
                  ("UserAddNode", 3, G2, a), ("UserAddNode", 2, W3, b), ("UserDeleteNode", 3, G3, a)]
-        en = [(k, 3, G3, {"scale": "sym"}) for k in ("ellipse_axis_radii", "circularity", "perimeter")]
+        specs += [("paint", 3, G2, {"scale": "iso", "enable_mid": "ellipse_axis_radii"}),
+                  ("UserDeleteNode", 2, G2, {"scale": "iso", "enable_mid": "ellipse_axis_radii"}),
+                  ("UserAddNode", 2, G2, {"scale": "iso", "enable_mid": "ellipse_axis_radii"})]
+        en = [(k, 3, G3, {"scale": "iso"}) for k in ("ellipse_axis_radii", "circularity", "perimeter")]
     return _seg("C08", tier, seed, specs, en)
 
 
@@ -316,11 +321,12 @@ def C09(tier, seed):
         # three slots on two frames: a repainted node can be a dividing parent (two edges into one frame)
         # paint on three frames: the repainted node can be an endpoint of a frame-skipping edge
         specs = [("paint", 3, G2, a), ("paint", 2, G3, a), ("UserAddEdge", 3, G3, a), ("UserDeleteNode", 3, G3, a),
-                 ("UserSwapPredecessors", 3, G3, a)]
+                 ("UserSwapPredecessors", 3, G3, a), ("paint", 2, G2, {"enable_mid": "iou"})]
         en = [("iou", 3, G3, {}), ("iou", 3, G3, {"iou": True, "stale_keys": ["iou"]})]
     else:
         specs = [("paint", 3, G3, a), ("paint", 2, G3D, a), ("UserAddEdge", 4, G3, a), ("UserDeleteNode", 4, G3, a),
-                 ("UserSwapPredecessors", 4, G3, a), ("UserAddNode", 3, G3, a)]
+                 ("UserSwapPredecessors", 4, G3, a), ("UserAddNode", 3, G3, a), ("paint", 2, G3, {"enable_mid": "iou"}),
+                 ("UserDeleteEdge", 3, G3, {"enable_mid": "iou"}), ("UserAddEdge", 3, G3, {"enable_mid": "iou"})]
         en = [("iou", 4, G3, {}), ("iou", 3, (4, 1, 2), {}), ("iou", 4, G3, {"iou": True, "stale_keys": ["iou"]})]
     return _seg("C09", tier, seed, specs, en)
 
@@ -371,7 +377,9 @@ def C16(tier, seed):
            ("csv:noseg:per_axis_pos:display", dict(op="csv", seg=False, multi_pos=True, display_names=True)),
            ("csv:export_seg", dict(op="csv", export_seg=True)), ("save", dict(op="save", select=False)),
            ("save:noseg", dict(op="save", select=False, seg=False, scale="given")),
-           ("queries", dict(op="queries", select=False)), ("queries:noseg", dict(op="queries", select=False, seg=False))]
+           ("queries", dict(op="queries", select=False)), ("queries:noseg", dict(op="queries", select=False, seg=False)),
+           ("queries:noseg:per_axis_pos", dict(op="queries", select=False, seg=False, multi_pos=True)),
+           ("save:noseg:per_axis_pos", dict(op="save", select=False, seg=False, multi_pos=True))]
     return run_property("C16", tier, _export_runs("C16", tier, ops), explanation=R.EXPL, seed=seed,
                         assumptions=EXPORT_ASSUME, stubs=EXPORT_STUBS)
 
@@ -499,7 +507,7 @@ def C10(tier, seed):
                             dict(N=nn, action=act, props=["C10"], disable=dis, drop_lineage_inv=True),
                             step_replay.replay, ("accepted",),
                             f"{nn} node slots, lineage ids arbitrary, the listed features disabled before the edit"))
-    en = [(k, 2 if q else 3, g2 if q else g3, {"scale": "sym"}) for k in ("circularity", "perimeter")] + [
+    en = [(k, 2 if q else 3, g2 if q else g3, {"scale": "iso"}) for k in ("circularity", "perimeter")] + [
         ("iou", 3, g3, {})]
     # the key is ALREADY active (activated earlier without computing: stored values arbitrary): enabling it with
     # recomputation must still produce the reference values
